@@ -102,6 +102,7 @@ func Gen(profile string, seed uint64) (*Config, Plan) {
 	}
 	kinds["stopstart"] = g.Chance(0.35)
 	kinds["lossy"] = g.Chance(0.5)
+	kinds["slowlink"] = g.Chance(0.4)
 	kinds["diskerr"] = false
 
 	switch profile {
@@ -152,6 +153,7 @@ func Gen(profile string, seed uint64) (*Config, Plan) {
 		kinds["partition"] = true
 		kinds["clock"] = true
 		kinds["oneway"] = true
+		kinds["slowlink"] = g.Chance(0.7)
 		nFaults = pick(g, 4, 8, 12)
 	case ProfLease:
 		cfg.Voters = weighted(g, 3, 50, 5, 40, 4, 10)
@@ -219,6 +221,7 @@ func Gen(profile string, seed uint64) (*Config, Plan) {
 		kinds["crash"] = false
 		kinds["crashop"] = false
 		kinds["clock"] = false
+		kinds["slowlink"] = false
 		nFaults = pick(g, 0, 2, 4)
 	case ProfSnapshot, ProfSnapFifo, ProfCrashSweep, ProfLiveness:
 		cfg.SnapThreshold = pick(g, 2, 5, 10, 25, 40)
@@ -323,6 +326,12 @@ func Gen(profile string, seed uint64) (*Config, Plan) {
 		case "crashop":
 			ph := int64(pick(g, simos.Before, simos.After, simos.Torn))
 			st := Step{AtMs: at, Kind: StepCrash, Node: node, A: 1, B: g.Range(1, 25), C: ph}
+			if g.Chance(0.35) {
+				// Aim at a boundary between protocol steps: the next few renames (snapshot made
+				// visible, state file replaced, compacted log swapped in), syncs or removals.
+				st.A, st.B = 2, g.Range(1, 4)
+				st.Op = []string{simos.OpRename, simos.OpRename, simos.OpSync, simos.OpRemove, simos.OpCreate, simos.OpMkdir}[g.Intn(6)]
+			}
 			if g.Chance(0.3) {
 				st.Str = "leader"
 			}
@@ -355,6 +364,30 @@ func Gen(profile string, seed uint64) (*Config, Plan) {
 			}
 			plan = append(plan, st)
 			plan = append(plan, Step{AtMs: at + g.Range(int64(cfg.ElectionMs), 10*int64(cfg.ElectionMs)), Kind: StepHeal})
+		case "slowlink":
+			// What a node hears arrives late (half to three election timeouts); a little later
+			// (sometimes) it can no longer be heard at all: answers to its last requests are still
+			// under way while the others move on without it.
+			var others []string
+			for _, id := range ids {
+				if id != node {
+					others = append(others, id)
+				}
+			}
+			st := Step{AtMs: at, Kind: StepSlowLink, Node: node, Nodes: others, A: g.Range(int64(cfg.ElectionMs)/2, 3*int64(cfg.ElectionMs)), B: int64(g.Intn(2))}
+			lead := g.Chance(0.5)
+			if lead {
+				st.Str = "leader"
+			}
+			plan = append(plan, st)
+			if g.Chance(0.6) {
+				mute := Step{AtMs: at + g.Range(0, 2*int64(cfg.HeartbeatMs)), Kind: StepOneWay, Node: node, Nodes: others}
+				if lead {
+					mute.Str = "leader"
+				}
+				plan = append(plan, mute)
+			}
+			plan = append(plan, Step{AtMs: at + g.Range(2*int64(cfg.ElectionMs), 8*int64(cfg.ElectionMs)), Kind: StepHeal})
 		case "diskerr":
 			// EIO or ENOSPC at the k-th storage operation from now: the repository's answer to any
 			// storage error is logger.Fatal (fail-stop); the node is restarted later like a crashed one.
@@ -371,6 +404,9 @@ func Gen(profile string, seed uint64) (*Config, Plan) {
 	}
 	if (profile == ProfReads || profile == ProfLease || profile == ProfElection) && cfg.Voters >= 3 && g.Chance(0.4) {
 		cfg.Scenario = "lagging-voter"
+	}
+	if (profile == ProfReads || profile == ProfLease) && cfg.Voters >= 4 && cfg.Scenario == "" && g.Chance(0.4) {
+		cfg.Scenario = "slow-quorum"
 	}
 	if profile == ProfReads || profile == ProfLease {
 		// Bias: mute the current leader (outgoing only) a few times, so that it stays leader in its
